@@ -1520,6 +1520,7 @@ def run(ctx):
     a.roles = {}
     framing(ctx, a)
     quant = header(ctx, a)
+    a.quant = quant
     palette(ctx, a, quant)
     band(ctx, a, quant)
     rle(ctx, a)
@@ -2121,12 +2122,91 @@ def band(ctx, a, quant):
                 e = uncell(uncell(tgt)[2][0])
                 if e[2][0][0] == "cell":
                     pushes.append((bb, t, e[2][0][1], e[2][1], tm.op(t["args"][1])))
+    # A push that is the exact shortcut for a single-colour column is the general push under another spelling: when all `bits`
+    # samples equal sample k, the set of the column's colours is {sample k} and every slot holds it, so the general path pushes
+    # exactly once, (column, 0b111111 + offset) under key sample k.  Such a site is accepted next to the one general site when it
+    # does precisely that, only then, after the samples were filled, and instead of (never in addition to) the general push.
+    full_code = (1 << bits) - 1 + dt["offset"]
+    fills = [l for l in a.loops if l.head in {x[2][1] for x in stores}]
+
+    def uniform_shortcut(p, general):
+        fb, ft, fmap, fkey, fval = p
+        if not (fkey[0] == "idxv" and fkey[1] == arr and fkey[2][0] == "int" and 0 <= fkey[2][1] < bits):
+            return "its key is not a sample of the column"
+        if not (fval[0] == "agg" and fval[1] == "tuple" and len(fval[3]) == 2 and col_item(fval[3][0]) and const_int(fval[3][1]) == full_code):
+            return "it does not push (column, %d)" % full_code
+        if not okstore or not okarr or len(fills) != len(stores):
+            return "the sample fill is not understood"
+
+        def uniform(d):
+            """discriminant -> True/False: the truth value of d that means `all samples are equal`, None: another test"""
+            d, flip = uncell(d), False
+            while d[0] == "un" and d[1] == "Not":
+                d, flip = uncell(d[2]), not flip
+            if not (d[0] == "call" and len(d[2]) == 2 and re.search(r"Iterator(<.*>)?>?::(all|any)$", d[1])):
+                return None
+            is_all = d[1].endswith("::all")
+            ch = sample_chain(ctx.prog, a, d[2][0], S, bits)
+            if ch is None or ch["guards"] or ch["n"] != bits:
+                return None
+            truth = closure_truth(ctx.prog, d[2][1], [ch["item"]])
+            if truth is None or len(truth) != 1 or len(truth[0]) != 1:
+                return None
+            lit, pol = truth[0][0]
+            e = equality_test(lit)
+            if e is None:
+                return None
+            sample = lambda u: u[0] == "idxv" and u[1] == arr and u[2] == SYM_I
+            fixed = lambda u: u[0] == "idxv" and u[1] == arr and u[2][0] == "int" and 0 <= u[2][1] < bits
+            if not ((sample(e[1]) and fixed(e[2])) or (sample(e[2]) and fixed(e[1]))):
+                return None
+            cb_ = closure_of(ctx.prog, d[2][1])
+            seen_closures[id(d)] = ch["closures"] + [(cb_.path, ClosureTerms(cb_, uncell(d[2][1]), [ch["item"]]))]
+            means_eq = e[0] == pol          # the closure is true for a slot exactly when its sample equals the fixed one
+            if is_all and means_eq:         # all(s == k)
+                return not flip
+            if not is_all and not means_eq:     # !any(s != k)
+                return flip
+            return None
+        seen_closures = {}
+        doms = [(x, truth) for (x, truth) in dominating_true_edge(a, fb, lambda d: uniform(d) is not None) if truth == uniform(tm.op(body.blocks[x]["term"]["d"]))]
+        if not doms:
+            return "it is not guarded by `all samples of the column are equal`"
+        for cl_ in seen_closures.values():
+            a.SHORTCUT["chain_closures"] += [c_ for c_ in cl_ if c_[0] not in [y[0] for y in a.SHORTCUT["chain_closures"]]]
+        x = doms[0][0]
+        if not (in_loop(cfg, LC, fb) and in_loop(cfg, LC, x)) or any(in_loop(cfg, l, fb) for l in a.loops if l is not LC and in_loop(cfg, LC, l.head)):
+            return "it is not executed once per column"
+        if not all(cfg.dominates(l.none, x) and in_loop(cfg, LC, l.head) for l in fills) or any(sb in cfg.reachable_from(x, removed={LC.head}) for (sb, _, _, _) in stores):
+            return "the test does not come after the samples of the column were filled"
+        nxt = body.succs(fb)[0]
+        gb = general[0]
+        if fb in cfg.reachable_from(nxt, removed={LC.head}) or gb in cfg.reachable_from(nxt, removed={LC.head}) or fb in cfg.reachable_from(body.succs(gb)[0], removed={LC.head}):
+            return "the general push can follow or precede it in the same column"
+        if fmap != general[2]:
+            return "it pushes into another map"
+        return None
+
+    shortcuts = []
+    a.SHORTCUT = {"chain_closures": [], "n": bits}      # closures of the understood chains over the sample slots (for TOTAL's lemmas)
+    if len(pushes) > 1:
+        gen = [p for p in pushes if not (p[3][0] == "idxv")]
+        if len(gen) == 1:
+            for p in pushes:
+                if p is gen[0]:
+                    continue
+                why_not = uniform_shortcut(p, gen[0])
+                ctx.instance("BAND", {"single_colour_column_shortcut": tm.show(p[4])[:120], "key": tm.show(p[3])[:80], "equivalent_to_general_push": why_not is None, "why_not": why_not})
+                if why_not is None:
+                    shortcuts.append(p)
+            pushes = [p for p in pushes if p not in shortcuts]
     if len(pushes) != 1:
         ctx.instance("BAND", {"run_list_push": None})
-        ctx.violation("BAND", DRAW, "run-list-push", "expected exactly one `map.entry(colour).or_default().push((column, code))`, found %d" % len(pushes), sites=site(a, LC.head))
+        ctx.violation("BAND", DRAW, "run-list-push", "expected exactly one `map.entry(colour).or_default().push((column, code))` (besides exact single-colour-column shortcuts), found %d" % len(pushes), sites=site(a, LC.head))
         return
     pbb, pt, MAP, key, val = pushes[0]
     a.MAP, a.push_bb = MAP, pbb
+    push_blocks = {pbb} | {p[0] for p in shortcuts}
     CODE = None      # loop form: the local the bits are OR-ed into
     FOLD = None      # iterator form: the `<chain>.fold(0, |code, ..| code | 1 << i)` call
     okpush = False
@@ -2287,7 +2367,7 @@ def band(ctx, a, quant):
             okmap, why = False, "unknown mutation"
         elif call_matches(cons[1], r"^std::collections::HashMap::<K, V, S, A>::clear$"):
             clears.append(cons[0])
-        elif call_matches(cons[1], r"^std::collections::HashMap::<K, V, S, A>::entry$") and cons[0] in [x for x in cfg.reaches({pbb})]:
+        elif call_matches(cons[1], r"^std::collections::HashMap::<K, V, S, A>::entry$") and cons[0] in [x for x in cfg.reaches(push_blocks)]:
             continue
         else:
             okmap, why = False, "mutated by %s" % callee_name(cons[1])
@@ -2324,6 +2404,37 @@ def band(ctx, a, quant):
     ctx.instance("BAND", {"band_iteration_language": "( # c data* $ )* -", "included": not v1})
     v2, _ = iteration_language(ctx, a, LM, grammar_colour(a.refs), "BAND", "colour-iteration")
     ctx.instance("BAND", {"colour_iteration_language": "# c data* $", "included": not v2})
+
+
+def const_int(t):
+    """value of a constant integer expression tree, else None"""
+    t = uncell(t)
+    while t[0] == "cast" and t[1] == "IntToInt":
+        t = uncell(t[3])
+    if t[0] == "int":
+        return t[1]
+    if t[0] == "bin":
+        x, y = const_int(t[2]), const_int(t[3])
+        if x is None or y is None:
+            return None
+        op = t[1]
+        if op == "Add":
+            return x + y
+        if op == "Sub":
+            return x - y
+        if op == "Mul":
+            return x * y
+        if op == "BitOr":
+            return x | y
+        if op == "BitAnd":
+            return x & y
+        if op == "BitXor":
+            return x ^ y
+        if op == "Shl" and 0 <= y < 128:
+            return x << y
+        if op == "Shr" and 0 <= y < 128:
+            return x >> y
+    return None
 
 
 def single_token_grammar(label, name):
@@ -2712,7 +2823,8 @@ def total(ctx, a):
     #   an understood closure (fold over the sample array, next_if predicate) -> the closure's own term trees, in which
     #                           captured variables read as draw's terms and parameters as the chain's element
     closure_tms = {}
-    for c_ in (FOLD, NEXTIF):
+    SHORTCUT = getattr(a, "SHORTCUT", None)
+    for c_ in (FOLD, NEXTIF, SHORTCUT):
         if c_ and c_.get("closure") and c_.get("terms") is not None:
             closure_tms[c_["closure"]] = c_["terms"]
         for (cp_, ctm_) in (c_ or {}).get("chain_closures", []):
@@ -2773,7 +2885,8 @@ def total(ctx, a):
         while t[0] == "cast" and t[1] == "IntToInt":
             t = t[3]
         if t == SYM_I:
-            return FOLD["n"] if FOLD else None       # slot index of the chain the fold runs over
+            ns_ = [c_["n"] for c_ in (FOLD, SHORTCUT) if c_ and c_.get("n") is not None and (c_ is FOLD or c_["chain_closures"])]
+            return max(ns_) if ns_ else None       # slot index of the chain over the sample slots (fold / single-colour test)
         it = item_of(t)
         if it is not None and it[2] == [] and range_iter(it[1]) is not None:
             lo, hi = range_iter(it[1])
@@ -2828,6 +2941,66 @@ def total(ctx, a):
                 if good:
                     lemma(s_, "REM-LE", "x %% c <= x for the same x = %s (the image is borrowed shared for the whole call)" % tm.show(ops[0]))
                     ctx.trust("REM-LE", "Surface::height/width of an `&Image` are pure accessors of its immutable shape")
+    # ---- PALETTE-LEN: arithmetic on the number of palette entries (buffer pre-sizing and the like) -----------------------------
+    ctx.rule("PALETTE-LEN", "sums/products/quotients of constants, the palette length and image dimensions (buffer pre-sizing) are bounded: the palette of Image::quantize(.., N, ..) has at most N <= 256 entries, dimensions are below 2^31 (SIZE-BOUND)", floor=0)
+    quant = getattr(a, "quant", None)
+    qsize = None
+    if quant is not None and len(quant["call"][2]) > 1 and quant["call"][2][1][0] == "int" and not any(v.rule == "PALETTE" and "palette-size" in v.key for v in ctx.violations):
+        qsize = quant["call"][2][1][1]
+
+    def upper(t):
+        """upper bound of an unsigned expression over constants and the palette length, else None"""
+        t = uncell(t)
+        if t[0] == "int":
+            return t[1] if t[1] >= 0 else None
+        if qsize is not None and t[0] == "call" and re.search(r"(^|::)len$", t[1]) and len(t[2]) == 1:
+            inner = uncell(t[2][0])
+            if inner[0] == "call" and inner[1] == "image::ColorPalette::colors" and len(inner[2]) == 1 and strip_bb(uncell(inner[2][0])) == strip_bb(quant["palette"]):
+                return qsize
+            return None
+        if qsize is not None and size_is_len and t[0] == "call" and t[1] == "image::ColorPalette::size" and len(t[2]) == 1 and strip_bb(uncell(t[2][0])) == strip_bb(quant["palette"]):
+            return qsize                    # ColorPalette::size() is colors.len() (checked on its body)
+        if t[0] == "call" and t[1] in ("surface::Surface::width", "surface::Surface::height") and len(t[2]) == 1 and quant is not None \
+                and strip_bb(uncell(t[2][0])) in (strip_bb(quant["qimg"]), quant.get("img")):
+            used_dims.append(1)
+            return (1 << 31) - 1            # assumption SIZE-BOUND
+        if t[0] == "bin" and t[1] in ("Div", "Shr") and uncell(t[3])[0] == "int" and uncell(t[3])[1] >= (1 if t[1] == "Div" else 0):
+            return upper(t[2])              # x / c <= x, x >> c <= x
+        if t[0] == "bin" and t[1] in ("Add", "Mul"):
+            x, y = upper(t[2]), upper(t[3])
+            if x is None or y is None:
+                return None
+            return x + y if t[1] == "Add" else x * y
+        return None
+
+    used_dims = []
+    size_is_len = False
+    sb_ = prog.body("image::ColorPalette::size")
+    if sb_ is not None:
+        from ..flow import arg_place
+        cs_ = [(bb, t) for bb, t in sb_.calls() if not sb_.blocks[bb]["cleanup"]]
+        size_is_len = len(cs_) == 1 and call_matches(cs_[0][1], r"^std::vec::Vec::<T, A>::len$") and cs_[0][1]["dest"] == {"l": 0, "p": []} \
+            and re.search(r"^\(\*_1\)\.colors$", str(arg_place(sb_, cs_[0][1], 0) or "")) is not None
+
+    def mentions_palette_len(t):
+        """the expression itself (not a variable whose initial value happens to) contains palette.colors()"""
+        t = uncell(t)
+        if t[0] == "call" and t[1] in ("image::ColorPalette::colors", "image::ColorPalette::size", "surface::Surface::width", "surface::Surface::height"):
+            return True
+        return any(mentions_palette_len(c) for c in children(t) if c[0] != "cell" or t[0] in ("bin", "cast"))
+    for s_ in sites:
+        if s_.o.kind == "OVF" and s_.o.sub in ("Add", "Mul") and s_.o.term["k"] == "assert" and all(len(ops) == 2 and any(mentions_palette_len(x) for x in ops) for ops in s_.ops):
+            del used_dims[:]
+            ubs = [[upper(x) for x in ops] for ops in s_.ops]
+            if any(None in u for u in ubs):
+                continue                    # not an expression over constants, the palette length and image dimensions: not this lemma's
+            # pure palette arithmetic has to fit 32 bits (any target); with image dimensions (SIZE-BOUND: < 2^31 each) the 64-bit usize of the analysed target
+            good = all((u[0] + u[1] if s_.o.sub == "Add" else u[0] * u[1]) < ((1 << 64) if used_dims else (1 << 32)) for u in ubs)
+            ctx.instance("PALETTE-LEN", dict({"operands": [tm.show(x)[:100] for x in s_.ops[0]], "upper_bounds": ubs[0], "ok": good}, **where(s_)))
+            if good:
+                ctx.assume("PALETTE-LEN: Image::quantize(.., N, ..) returns a palette of at most N colours (quantiser correctness, C13)")
+                lemma(s_, "PALETTE-LEN", "palette.colors().len() <= %d (the constant handed to Image::quantize), so the result is at most %d" % (
+                    qsize, max((u[0] + u[1] if s_.o.sub == "Add" else u[0] * u[1]) for u in ubs)))
     # ---- BITS6: code | (1 << i), i < 6  =>  code <= 63, code + 63 <= 126 ---------------------------------------------
     ctx.rule("BITS6", "the sixel code is 0 OR-ed with 1 << i for slot indices i < 6, so code + 63 <= 126 fits u8", floor=1)
     top = (1 << dt["bits"]) - 1 + dt["offset"]
